@@ -110,7 +110,7 @@ def load(chk: Check, tier: str) -> List[Dict[str, Any]]:
     return recs
 
 
-FUZZ_DOCS = [[{"a": True}, {"a": 1}, {"a": 1e16}, {"a": 15.0}, {"a": "a", "b": [1]}, {"b": 2}, [1, [2]], "s", 1, None, False, {}],
+FUZZ_DOCS = [[{"a": "ab"}, {"a": "a b"}, {"a": True}, {"a": 1}, {"a": 1e16}, {"a": 15.0}, {"a": "a", "b": [1]}, {"b": 2}, [1, [2]], "s", 1, None, False, {}],
              {"a": [1, 2, {"a": 1, "b": {"a": "b"}}], "b": "a", "1": 1, "é": None},
              [[0], [10, 11, 12, 13, 14, 15], [20, [21, 22, 23], 24], 10 ** 23, 99999999999999991611392]]
 
